@@ -104,6 +104,22 @@ fn approx_rational(divident: i128, divisor: i128) -> (i128, u8) {
     // here: 0 <= rem < divisor and divisor >= 2 => rem <= |divident| / 2,
     // therefor it's safe to use rem << 1
     rem <<= 1;
+    #[cfg(feature = "verif-hooks")]
+    {
+        use fpdec_core::verif;
+        if n_frac_digits == MAX_N_FRAC_DIGITS && rem != 0 {
+            verif::hit(verif::APPROX_FRAC_LIMIT);
+        }
+        if magn_coeff >= MAGN_I128_MAX - 1 && rem != 0 {
+            verif::hit(verif::APPROX_MAGN_LIMIT);
+        }
+        if rem == divisor {
+            verif::hit(verif::APPROX_TIE);
+        }
+        if rem > divisor || rem == divisor && (coeff & 1_i128) == 1_i128 {
+            verif::hit(verif::APPROX_ROUND_UP);
+        }
+    }
     if rem > divisor || rem == divisor && (coeff & 1_i128) == 1_i128 {
         coeff += 1;
     }
